@@ -86,12 +86,14 @@ type CallRec struct {
 	args   []AV
 	res    AV
 	state  DNF
+	ghost  map[string]ghostBuf // ghost state before the call
 }
 
 type ReturnSite struct {
 	instr *ssa.Return
 	state DNF
 	vals  []AV
+	ghost map[string]ghostBuf
 }
 
 type Frame struct {
@@ -115,12 +117,47 @@ type Frame struct {
 	// states at instructions of interest
 	stateAt map[ssa.Instruction]DNF
 	child   map[ssa.CallInstruction]*Frame
+	// ghost state of modelled library objects (bytes.Buffer): current length and content root
+	ghost        map[string]ghostBuf
+	ghostOut     map[int]map[string]ghostBuf
+	ghostEntry   map[string]ghostBuf
+	ghostTouched map[string]bool
+}
+
+// ghostBuf is the abstract state of a bytes.Buffer: unread length and the root holding the
+// unread bytes (offset 0 of the root = next unread byte).
+type ghostBuf struct {
+	ln   Aff
+	root *Root
+	ver  int
+}
+
+func copyGhost(m map[string]ghostBuf) map[string]ghostBuf {
+	r := make(map[string]ghostBuf, len(m))
+	for k, v := range m {
+		r[k] = v
+	}
+	return r
+}
+
+// ghostOf returns (creating on first use) the ghost state of the buffer identified by key.
+func (f *Frame) ghostOf(key string) ghostBuf {
+	if g, ok := f.ghost[key]; ok {
+		return g
+	}
+	ln := f.an.u.sym("buflen("+key+")", 0, maxLen)
+	g := ghostBuf{ln: affSym(ln), root: &Root{key: "buf(" + key + ")", ln: affSym(ln)}}
+	f.ghost[key] = g
+	return g
 }
 
 func (an *Analysis) newFrame(fn *ssa.Function, parent *Frame, args []AV) *Frame {
 	f := &Frame{an: an, fn: fn, parent: parent, vals: map[ssa.Value]AV{}, objs: map[*ssa.Alloc]*Obj{},
 		edge: map[[2]int]DNF{}, blockIn: map[int]DNF{}, phiInv: map[*ssa.Phi]Conj{},
-		stateAt: map[ssa.Instruction]DNF{}, child: map[ssa.CallInstruction]*Frame{}}
+		stateAt: map[ssa.Instruction]DNF{}, child: map[ssa.CallInstruction]*Frame{}, ghost: map[string]ghostBuf{}, ghostOut: map[int]map[string]ghostBuf{}}
+	if parent != nil {
+		f.ghost = copyGhost(parent.ghost)
+	}
 	an.nframes++
 	if parent != nil {
 		f.depth = parent.depth + 1
@@ -266,13 +303,18 @@ func (f *Frame) run(entry DNF) {
 			f.cur = f.compress(in)
 			f.blockIn[b.Index] = f.cur
 			f.curBlk = b
+			if b != f.fn.Blocks[0] {
+				f.ghost = f.mergeGhost(b)
+			} else if pass > 0 {
+				f.ghost = copyGhost(f.ghostEntry)
+			}
+			if b == f.fn.Blocks[0] && pass == 0 {
+				f.ghostEntry = copyGhost(f.ghost)
+			}
 			for _, in := range b.Instrs {
-				if len(f.cur) == 0 {
-					// unreachable under the facts: still evaluate values so later uses resolve,
-					// but obligations are vacuous
-				}
 				f.step(in)
 			}
+			f.ghostOut[b.Index] = copyGhost(f.ghost)
 		}
 		if !f.final {
 			f.an.quiet--
@@ -754,6 +796,72 @@ type ARef struct {
 	deepNil *Sym
 	inner   AV
 	typ     types.Type
+	// idSym: identity of the referenced value (0 = nil, k = interned description of a concrete
+	// value); bound per incoming site so that == comparisons with concrete values correlate
+	idSym *Sym
+	// dynamic types the (non-nil) value may have; dynUnknown if some source is opaque
+	dynTypes   []types.Type
+	dynUnknown bool
+}
+
+// identityOf returns the interned identity number of a concrete reference value, or 0,false.
+func (u *Universe) identityOf(v AV) (int64, bool) {
+	var key string
+	switch x := v.(type) {
+	case ANil:
+		return 0, true
+	case AIface:
+		switch p := x.val.(type) {
+		case AGlobalVal:
+			key = "global:" + p.g.String()
+		case APtr:
+			if p.obj != nil && !p.obj.symbolic {
+				key = "obj:" + p.obj.key
+			}
+		case AGlobal:
+			key = "addr:" + p.g.String()
+		}
+	case AGlobalVal:
+		key = "global:" + x.g.String()
+	case APtr:
+		if x.null {
+			return 0, true
+		}
+		if x.obj != nil && !x.obj.symbolic && x.path == "" {
+			key = "obj:" + x.obj.key
+		}
+	}
+	if key == "" {
+		return 0, false
+	}
+	if u.ids == nil {
+		u.ids = map[string]int64{}
+	}
+	if id, ok := u.ids[key]; ok {
+		return id, true
+	}
+	id := int64(len(u.ids) + 1)
+	u.ids[key] = id
+	return id, true
+}
+
+func dynTypesOf(v AV) (ts []types.Type, unknown bool) {
+	switch x := v.(type) {
+	case ANil:
+		return nil, false
+	case AIface:
+		if x.typ == nil || x.typ == types.Typ[types.Invalid] {
+			return nil, true
+		}
+		return []types.Type{x.typ}, false
+	case ARef:
+		return x.dynTypes, x.dynUnknown || (x.dynTypes == nil && x.idSym == nil)
+	case APtr:
+		if x.null {
+			return nil, false
+		}
+	}
+	return nil, true
 }
 
 func (f *Frame) newRef(key string, t types.Type) ARef {
@@ -834,7 +942,7 @@ func (f *Frame) step(in ssa.Instruction) {
 		for i, r := range x.Results {
 			vals[i] = f.val(r)
 		}
-		f.returns = append(f.returns, ReturnSite{instr: x, state: f.cur, vals: vals})
+		f.returns = append(f.returns, ReturnSite{instr: x, state: f.cur, vals: vals, ghost: copyGhost(f.ghost)})
 		f.stateAt[x] = f.cur
 	case *ssa.Panic:
 		f.stateAt[x] = f.cur
@@ -947,6 +1055,13 @@ func (f *Frame) bindMerged(merged, incoming AV, st DNF) DNF {
 			pos := dnfAnd(DNF{Conj{atomEQ(affSym(m.nilSym), affConst(1))}}, nf.dnf(false))
 			neg := dnfAnd(DNF{Conj{atomEQ(affSym(m.nilSym), affConst(0))}}, nf.dnf(true))
 			st = dnfAnd(st, append(pos, neg...))
+			if m.idSym != nil {
+				if id, ok := f.an.u.identityOf(incoming); ok {
+					st = dnfAnd(st, DNF{Conj{atomEQ(affSym(m.idSym), affConst(id))}})
+				} else if ir, ok := incoming.(ARef); ok && ir.idSym != nil && ir.idSym != m.idSym {
+					st = dnfAnd(st, DNF{Conj{atomEQ(affSym(m.idSym), affSym(ir.idSym))}})
+				}
+			}
 			if m.deepNil != nil {
 				df := f.nilOrNilPtr(incoming)
 				pos := dnfAnd(DNF{Conj{atomEQ(affSym(m.deepNil), affConst(1))}}, df.dnf(false))
@@ -1015,6 +1130,24 @@ func (f *Frame) mergedValue(key string, t types.Type, vals []AV) AV {
 		r := f.newRef(key, t)
 		if _, isI := tt.(*types.Interface); isI {
 			r.deepNil = f.an.u.boolSym("nilptr(" + key + ")")
+		}
+		r.idSym = f.an.u.sym("id("+key+")", 0, bigNum)
+		for _, v := range vals {
+			ts, unk := dynTypesOf(v)
+			if unk {
+				r.dynUnknown = true
+			}
+			for _, t1 := range ts {
+				dup := false
+				for _, t2 := range r.dynTypes {
+					if types.Identical(t1, t2) {
+						dup = true
+					}
+				}
+				if !dup {
+					r.dynTypes = append(r.dynTypes, t1)
+				}
+			}
 		}
 		var inner AV
 		n := 0
@@ -1504,4 +1637,49 @@ func sortedKeys(m map[string]int) []string {
 	}
 	sort.Strings(ks)
 	return ks
+}
+
+// mergeGhost: ghost state at the entry of block b = the predecessors' exit states where
+// they agree; a buffer on which they disagree becomes unknown (fresh length and content).
+func (f *Frame) mergeGhost(b *ssa.BasicBlock) map[string]ghostBuf {
+	var outs []map[string]ghostBuf
+	for _, p := range b.Preds {
+		if isBackEdge(p, b) {
+			continue
+		}
+		if g, ok := f.ghostOut[p.Index]; ok {
+			outs = append(outs, g)
+		}
+	}
+	if len(outs) == 0 {
+		return copyGhost(f.ghost)
+	}
+	res := copyGhost(outs[0])
+	for _, o := range outs[1:] {
+		for k, v := range res {
+			w, ok := o[k]
+			if !ok || !w.ln.equal(v.ln) || w.root != v.root {
+				ln := f.an.u.sym(fmt.Sprintf("buflen(%s)@b%d", k, b.Index), 0, maxLen)
+				res[k] = ghostBuf{ln: affSym(ln), root: &Root{key: fmt.Sprintf("buf(%s)@b%d", k, b.Index), ln: affSym(ln)}, ver: v.ver + 1}
+			}
+		}
+		for k, w := range o {
+			if _, ok := res[k]; !ok {
+				res[k] = w
+			}
+		}
+	}
+	// a loop header cannot keep ghost facts that the body may change
+	for _, p := range b.Preds {
+		if isBackEdge(p, b) {
+			for k, v := range res {
+				if f.final && !f.ghostTouched[k] {
+					continue // never mutated in this function (learnt in the earlier passes)
+				}
+				ln := f.an.u.sym(fmt.Sprintf("buflen(%s)@loop%d", k, b.Index), 0, maxLen)
+				res[k] = ghostBuf{ln: affSym(ln), root: &Root{key: fmt.Sprintf("buf(%s)@loop%d", k, b.Index), ln: affSym(ln)}, ver: v.ver + 1}
+			}
+		}
+	}
+	return res
 }
